@@ -254,6 +254,16 @@ void MEDDLY::inter_mt::_compute(int L, unsigned in,
         }
     }
 
+    if (arg1F->isTerminalNode(A) && arg2F->isTerminalNode(B)) {
+        //
+        // Both are terminal one, and neither forest is fully reduced:
+        // both are identity patterns, and so is the result.
+        //
+        terminal tt(true, resF->getTerminalType());
+        C = resF->makeIdentitiesTo(tt.getHandle(), 0, L, in);
+        return;
+    }
+
     if ((A == B) && (arg1F==arg2F)) {
         // A and A = A
         edge_value dummy;
